@@ -46,8 +46,8 @@ RULE = ("load cases: enumerated over universe size 1-3 x stored N in {5,7,9,11} 
         "basis x data kind {tags, random per-pair magnitudes, mixed with zero blocks}; each "
         "case loads its directory for both requested bases x every odd target N <= stored "
         "x singles/ordered pairs/ordered triples of the universe (grid class Grid or "
-        "Grid3Scales, Spectral or Uniform spacing, random M and fall-offs, str/bytes "
-        "metadata).  fault cases: one BoltzmannSolver, alternating ok and faulty "
+        "Grid3Scales, Spectral or Uniform spacing -- on Uniform grids only equal-size loads "
+        "are judged --, random M and fall-offs, str/bytes metadata).  fault cases: one BoltzmannSolver, alternating ok and faulty "
         "directories: every (quick: all for <=2 particles, sampled for 3) subset of "
         "missing pair files, missing directory, target N above every/some stored size, "
         "size or basis differing in one file (every position), dataset absent/misnamed, "
@@ -62,6 +62,11 @@ ASSUMPTIONS = [
     "restricted Chebyshev functions per momentum direction",
     "malformed files outside the stated fault patterns (not HDF5, dataset shape "
     "contradicting its own metadata, unknown basis name) are recorded, not judged",
+    "the stored numbers of size N_s live on the Gauss-Lobatto nodes of size N_s; for a "
+    "Uniform-spaced target grid the files do not say which nodes are meant, so "
+    "size-changing loads on Uniform grids are run and counted but not judged",
+    "interpolateCollisionArray modifying its input object is recorded, not judged (the "
+    "property is about the returned operator)",
 ]
 CASE_TIMEOUT = 600
 CHUNK = 1
@@ -225,13 +230,17 @@ class _Hooks:
     def __init__(self):
         self.installed = False
         self.active = False
+        self.judge = True
         self.stack = []
         self.records = []
         self.mon = collections.Counter()
         self.ratios = []
 
-    def begin(self):
+    def begin(self, judge=True):
+        """judge=False: calls are counted and run, nothing is decided (used where the
+        property does not say what the stored nodes are: Uniform-spaced target grids)."""
         self.active = True
+        self.judge = judge
         self.stack = []
         self.records = []
 
@@ -293,15 +302,14 @@ class _Hooks:
     # -- oracle at changeBasis
     def judge_change_basis(self, arr, pre, pre_basis, new_basis, ctx):
         self.mon["changeBasis_calls"] += 1
+        if not self.judge:
+            self.mon["changeBasis_unjudged"] += 1
+            return
         post = np.asarray(arr.polynomialData.coefficients)
         if pre_basis == new_basis:
-            self.mon["changeBasis_noop"] += 1
-            if post.shape != pre.shape or not np.array_equal(post, pre):
-                self.records.append({"mech": "basis-change-to-same-basis-alters-data",
-                                     "msg": f"changeBasis({new_basis!r}) on an array already "
-                                     f"in that basis changed its coefficients", "data": {}})
-            return
-        self.mon["changeBasis_judged"] += 1
+            self.mon["changeBasis_same_basis"] += 1
+        else:
+            self.mon["changeBasis_judged"] += 1
         labels = (arr.basisType, tuple(arr.polynomialData.basis))
         want = (new_basis, ("Array", "Cardinal", "Cardinal", "Array", new_basis, new_basis))
         if labels != want:
@@ -313,6 +321,8 @@ class _Hooks:
             self.records.append({"mech": "basis-change-alters-shape",
                                  "msg": f"{pre.shape} -> {post.shape}", "data": {}})
             return
+        if pre_basis == new_basis and np.array_equal(post, pre):
+            return          # same basis, same numbers: trivially the same operator
         g = gridref(arr.grid)
         E, scale = ref.expected_action(pre, g, pre_basis, g)
         A, _ = ref.actual_action(post, g, new_basis)
@@ -334,6 +344,9 @@ class _Hooks:
 
     # -- oracle at interpolateCollisionArray
     def judge_interpolate(self, src, pre, pre_basis, target_grid, out, nested=()):
+        if not self.judge:
+            self.mon["interpolate_unjudged"] += 1
+            return
         self.mon["interpolate_calls"] += 1
         gs, gt = gridref(src.grid), gridref(target_grid)
         P, T = pre.shape[0], gt.N - 1
@@ -396,7 +409,8 @@ HOOKS = _Hooks()
 
 
 # ----------------------------------------------------------------- end-to-end oracle
-def verify_loaded(arr, spec: DirSpec, sel, grid, req, hook_records, mon, ratios):
+def verify_loaded(arr, spec: DirSpec, sel, grid, req, hook_records, mon, ratios,
+                  judge_action=True):
     """Judge the array a successful load installed.  Returns (viol, summary)."""
     viol = []
     P, T = len(sel), grid.N - 1
@@ -432,6 +446,9 @@ def verify_loaded(arr, spec: DirSpec, sel, grid, req, hook_records, mon, ratios)
                          "data": {"index": list(i), "got": got, "want": want,
                                   "origin": decode_tag(got)}})
     # (2) operator action on all low-order distributions, per ordered pair
+    if not judge_action:
+        mon["loads_action_unjudged"] += 1
+        return viol, {"unjudged": True}
     gs = ref.GridRef(*_nodes_for(grid, spec.N))
     gt = gridref(grid)
     E, scale = ref.expected_action(Cs, gs, spec.basis, gt)
@@ -442,7 +459,7 @@ def verify_loaded(arr, spec: DirSpec, sel, grid, req, hook_records, mon, ratios)
     mon["action_distributions"] += P * P * T * T
     ratios.append(("load", float(np.max(res / tol))))
     bad = np.argwhere(~(res <= tol))
-    summary = {"max_ratio": float(np.max(res / tol))}
+    summary = {"max_ratio": float(np.max(res / tol)), "kappa": gs.kappa + gt.kappa}
     if len(bad):
         a, b = (int(v) for v in bad[0])
         hook_mechs = sorted({r["mech"] for r in hook_records})
@@ -577,7 +594,11 @@ def _case_load(case):
                 for sel in sels:
                     solver = BoltzmannSolver(grid, BASES[int(rng.integers(2))], req)
                     solver.updateParticleList(make_particles(names, sel))
-                    HOOKS.begin()
+                    # which nodes the stored numbers live on is only defined by the
+                    # property for the collocation grid; on a Uniform target grid a
+                    # size-changing load is run and counted, not judged
+                    judged = not (Nt < Ns and case["grid"]["spacing"] == "Uniform")
+                    HOOKS.begin(judge=judged)
                     exc = None
                     try:
                         solver.loadCollisions(pathlib.Path(spec.path))
@@ -588,7 +609,7 @@ def _case_load(case):
                     obs["loads"] += 1
                     P = len(sel)
                     cls.add(f"P{P}")
-                    if Nt < Ns:
+                    if Nt < Ns and judged:
                         cls.add(f"interp:P{P}")
                     if exc is not None:
                         viol.append({"mech": f"load-valid-directory-raises-{type(exc).__name__}",
@@ -597,7 +618,7 @@ def _case_load(case):
                                      "data": {}})
                         continue
                     v, summ = verify_loaded(solver.collisionArray, spec, sel, grid, req,
-                                            recs, mon, ratios)
+                                            recs, mon, ratios, judge_action=judged)
                     flagged = bool(v or recs or summ.get("end_to_end_mismatch"))
                     if summ.get("end_to_end_mismatch"):
                         obs["mismatch_loads"] += 1
@@ -613,11 +634,12 @@ def _case_load(case):
                         obs.setdefault("viol_counts", {})
                         obs["viol_counts"][r["mech"]] = obs["viol_counts"].get(r["mech"], 0) + 1
                     C = solver.collisionArray.polynomialData.coefficients
-                    if C.shape == (P, Nt - 1, Nt - 1, P, Nt - 1, Nt - 1):
+                    if judged and C.shape == (P, Nt - 1, Nt - 1, P, Nt - 1, Nt - 1):
                         for ia, ua in enumerate(sel):
                             for ib, ub in enumerate(sel):
                                 blocks[(Nt, req, ua, ub)].append(
-                                    (sel, np.array(C[ia, :, :, ib, :, :]), flagged))
+                                    (sel, np.array(C[ia, :, :, ib, :, :]), flagged,
+                                     summ.get("kappa", 2.0)))
         # (3) a pair's block does not depend on which other particles are present
         worst = 0.0
         for (Nt, req, ua, ub), lst in blocks.items():
@@ -626,12 +648,12 @@ def _case_load(case):
                 mon["independence_skipped_(load_already_flagged)"] += len(lst) - len(clean)
             if len(clean) < 2:
                 continue
-            sel0, b0, _ = clean[0]
+            sel0, b0, _, kap = clean[0]
             sc = float(np.max(np.abs(b0)))
-            for sel1, b1, _ in clean[1:]:
+            for sel1, b1, _, _ in clean[1:]:
                 mon["independence_pairs"] += 1
                 d = float(np.max(np.abs(b1 - b0)))
-                tol = IND_K * ref.EPS * sc + 1e-300
+                tol = IND_K * ref.EPS * kap * sc + 1e-300
                 worst = max(worst, d / tol)
                 if not d <= tol:
                     m = "pair-block-depends-on-other-particles"
@@ -682,10 +704,12 @@ def _case_load(case):
             "nontrivial": obs["loads"] > 0, "obs": obs, "viol": viol, "mon": dict(mon)}
 
 
-# Independence tolerance.  Observed on the repaired tree (seeds 0-4 quick, 0-1 thorough):
-# the blocks are bit-identical in 99.9% of comparisons and differ by at most 2 ulp of the
-# block maximum otherwise (numpy reductions over differently shaped arrays).  64 ulp of
-# the block's largest entry is >= 30x that and far below any bookkeeping effect.
+# Independence tolerance: IND_K * eps * (kappa_s + kappa_t) * max|block|, i.e. the same
+# propagated form as the action tolerance, in coefficient space.  Observed on the tree
+# with the axis-order repair (seeds 0-4 quick, 0-1 thorough, >2e5 comparisons): the
+# blocks were bit-identical every time, so this only has to leave room for an
+# implementation whose reductions depend on the array shape; a block that picks up
+# anything from another pair differs by O(max|block|), >= 1e11 tolerances.
 IND_K = 64.0
 
 
